@@ -2,7 +2,7 @@ use std::collections::HashMap;
 
 use rusty_common::CaseInsensitiveString;
 use rusty_linter::core::{QBNumberCast, ScopeName};
-use rusty_parser::{BareName, BuiltInFunction, TypeQualifier};
+use rusty_parser::{BareName, BuiltInFunction, Parameter, TypeQualifier};
 use rusty_variant::{
     UserDefinedTypeValue, VArray, Variant, bytes_to_f64, bytes_to_i32, f64_to_bytes, i32_to_bytes,
 };
@@ -58,10 +58,33 @@ impl Context {
         match self.static_memory_blocks.get(&scope_name) {
             Some(existing_memory_block_index) => {
                 let memory_block_index = *existing_memory_block_index;
+                // A STATIC function/sub that calls itself: the parameters live in the
+                // memory block that the activations share, so the new arguments would
+                // replace the parameters of the activation that makes the call for good.
+                // Remember them, to put them back when the new activation ends.
+                let is_active = self
+                    .states
+                    .iter()
+                    .any(|s| s.arguments.is_none() && s.memory_block_index == memory_block_index);
+                let saved_parameters: Vec<(Parameter, Variant)> = if is_active {
+                    let variables = &self.memory_blocks[memory_block_index].variables;
+                    arguments
+                        .iter()
+                        .filter_map(|argument| argument.param_name.as_ref())
+                        .filter_map(|param_name| {
+                            variables
+                                .get_param(param_name)
+                                .map(|value| (param_name.clone(), value.clone()))
+                        })
+                        .collect()
+                } else {
+                    vec![]
+                };
                 self.memory_blocks[memory_block_index]
                     .variables
                     .apply_arguments(arguments);
                 self.do_push_existing(memory_block_index, false);
+                self.state_mut().saved_parameters = saved_parameters;
             }
             _ => {
                 let variables = Variables::from(arguments);
@@ -230,7 +253,12 @@ impl Context {
     }
 
     fn do_pop(&mut self) -> State {
-        let state = self.states.pop().expect("States underflow");
+        let mut state = self.states.pop().expect("States underflow");
+        for (param_name, value) in state.saved_parameters.drain(..) {
+            self.memory_blocks[state.memory_block_index]
+                .variables
+                .insert_param(param_name, value);
+        }
         let removed_from_rc = self.decrease_ref_count(state.memory_block_index);
         if removed_from_rc {
             let removed_index = state.memory_block_index;
@@ -478,6 +506,9 @@ impl Default for Context {
 struct State {
     memory_block_index: usize,
     arguments: Option<Arguments>,
+    /// The parameters of the calling activation of a STATIC function/sub
+    /// that called itself, to be restored when this activation ends.
+    saved_parameters: Vec<(Parameter, Variant)>,
 }
 
 impl State {
@@ -489,6 +520,7 @@ impl State {
             } else {
                 None
             },
+            saved_parameters: vec![],
         }
     }
 }
